@@ -50,12 +50,12 @@ func (k *Key) OptForms() []string {
 		return []string{"-"}
 	}
 	if len(k.Extra) > 0 && len(k.Params) == 0 {
-		return []string{"zero", "nilmap-explicit", "emptymap", "shared"}
+		return []string{"zero", "nilmap-explicit", "emptymap", "shared", "sharedopts", "sharedzero", "reused"}
 	}
 	if len(k.Params) == 0 {
-		return []string{"pkgfunc", "nilopts", "zero", "nilmap-explicit", "emptymap", "shared"}
+		return []string{"pkgfunc", "nilopts", "zero", "nilmap-explicit", "emptymap", "shared", "sharedopts", "sharedzero", "reused"}
 	}
-	return []string{"private", "shared"}
+	return []string{"private", "shared", "sharedopts", "reused"}
 }
 
 var paramSets = [][][2]string{
